@@ -55,6 +55,17 @@ type Step struct {
 	From         int64                  `json:"from,omitempty"`
 	Until        int64                  `json:"until,omitempty"`
 	Time         uint64                 `json:"time"` // anchoring time
+	// Code, if non-zero, is the hash algorithm this request was built with (next commitments, delta hash) where it
+	// differs from the DID's first one: the protocol then enables both, and the reveal value keeps the algorithm of the
+	// commitment it opens
+	Code uint64 `json:"code,omitempty"`
+}
+
+func (s Step) code(c *Case) uint64 {
+	if s.Code != 0 {
+		return s.Code
+	}
+	return c.Code
 }
 
 // Case is one DID: a create and further client-built operations.
@@ -89,6 +100,13 @@ func js(v interface{}) string {
 func protocolFor(c *Case) protocol.Protocol {
 	p := wire.BaseProtocol()
 	p.MultihashAlgorithms = []uint{uint(c.Code)}
+	for _, s := range c.Steps {
+		if s.Code != 0 && s.Code != c.Code {
+			// both enabled; the DID's first algorithm stays first in the list because the library names the suffix of a
+			// create request with the first listed algorithm (pkg/versions/1_0/model.GetUniqueSuffix)
+			p.MultihashAlgorithms = []uint{uint(c.Code), uint(s.Code)}
+		}
+	}
 	p.MaxOperationTimeDelta = c.TimeDelta
 	algs, crvs := map[string]bool{}, map[string]bool{}
 	p.SignatureAlgorithms, p.KeyAlgorithms = nil, nil
@@ -204,7 +222,7 @@ func evalCase(c *Case) (string, string) {
 				if op.Delta == nil || op.Delta.UpdateCommitment != s.NextUpdate {
 					return "C11/parse-back", fmt.Sprintf("%s: next update commitment differs from the supplied %s", tag, s.NextUpdate)
 				}
-				if deltaHash != asm.HashModel(c.Code, res.NormalizeAny(op.Delta)) {
+				if deltaHash != asm.HashModel(s.code(c), res.NormalizeAny(op.Delta)) {
 					return "C11/parse-back", tag + ": signed delta hash is not the hash of the delta"
 				}
 			}
@@ -339,7 +357,7 @@ func opaqueDoc(t *rapid.T) map[string]interface{} {
 }
 
 func TestRoundTrip(t *testing.T) {
-	ev.Rule(chk, "rapid: per DID a create and 0-4 further operations (update / recover / deactivate), all built with client.New*Request from valid inputs: patch lists over all eight actions or opaque documents (create / recover), anchor origins of several JSON types, windows (none / from / from+until), optional nonce and kid, each operation signed with the library's ecsigner / edsigner over keys of all 5 types, every fourth EC key having a public coordinate with a leading zero byte (JWK via pubkey.GetPublicKeyJWK, commitments via commitment.GetCommitment), both hash algorithms; oracle: Parse accepts under a protocol enabling exactly the used algorithms; ParseOperation + ParseSignedDataFor* return exactly the supplied suffix, commitments, patches (JSON-equal), reveal value, key, anchor origin and window; suffix == independent hash of the suffix data; after anchoring inside the window Resolve shows exactly the kit/refdoc prediction (document, commitments, deactivated); non-trivial = key type other than P-256, or sha2-512, or a window, or >= 3 patches")
+	ev.Rule(chk, "rapid: per DID a create and 0-4 further operations (update / recover / deactivate), all built with client.New*Request from valid inputs: patch lists over all eight actions or opaque documents (create / recover), anchor origins of several JSON types, windows (none / from / from+until), optional nonce and kid, each operation signed with the library's ecsigner / edsigner over keys of all 5 types, every fourth EC key having a public coordinate with a leading zero byte (JWK via pubkey.GetPublicKeyJWK, commitments via commitment.GetCommitment), both hash algorithms - one DID in three migrates, i.e. later requests are built with the other algorithm (next commitments, delta hash) while their reveal value opens a commitment made under the first one; oracle: Parse accepts under a protocol enabling exactly the used algorithms; ParseOperation + ParseSignedDataFor* return exactly the supplied suffix, commitments, patches (JSON-equal), reveal value, key, anchor origin and window; suffix == independent hash of the suffix data; after anchoring inside the window Resolve shows exactly the kit/refdoc prediction (document, commitments, deactivated); non-trivial = key type other than P-256, or sha2-512, or a window, or >= 3 patches")
 	ev.Rapid(t, chk, 300, 3000, func(t *rapid.T) {
 		code := rapid.SampledFrom([]uint64{asm.SHA256, asm.SHA512}).Draw(t, "hash")
 		c := &Case{Code: code, TimeDelta: uint64(rapid.SampledFrom([]int{600, 7207}).Draw(t, "timeDelta"))}
@@ -362,6 +380,11 @@ func TestRoundTrip(t *testing.T) {
 			return keys.Get(kt, "c11", nk)
 		}
 		nontrivial := code == asm.SHA512
+		// one DID in three migrates: later requests are built with the other algorithm (both enabled), opening
+		// commitments made under the first one
+		migrate := rapid.IntRange(0, 2).Draw(t, "migratesHashAlgorithm") == 0
+		other := asm.SHA256 + asm.SHA512 - code
+		updCode, recCode := code, code
 		recK, updK := newKey(), newKey()
 		useNonce := rapid.Bool().Draw(t, "nonce")
 		recJ, updJ := libJWK(t, recK, useNonce), libJWK(t, updK, useNonce)
@@ -406,33 +429,39 @@ func TestRoundTrip(t *testing.T) {
 				nontrivial = true
 			}
 			kid := rapid.SampledFrom([]string{"", "signing-key"}).Draw(t, "kid")
+			sc := code
+			if migrate && rapid.Bool().Draw(t, "builtWithOtherAlgorithm") {
+				sc = other
+				s.Code = other
+				nontrivial = true
+			}
 			switch kind {
 			case "update":
 				next := newKey()
 				nj := libJWK(t, next, useNonce)
 				s.KeyType, s.Alg, s.Crv = updK.Type.String(), updK.Type.Alg(), updK.Type.Crv()
 				s.SigningJWK = res.NormalizeAny(updJ).(map[string]interface{})
-				s.Reveal = asm.Reveal(withNonce(updK, useNonce), code)
-				s.NextUpdate = commit(t, nj, code)
+				s.Reveal = asm.Reveal(withNonce(updK, useNonce), updCode)
+				s.NextUpdate = commit(t, nj, sc)
 				s.Patches = gen.ValidPatches(t, 4, gen.PatchOpts{Actions: []string{"add-public-keys", "remove-public-keys", "add-services", "remove-services", "add-also-known-as", "remove-also-known-as", "ietf-json-patch"}})
 				nontrivial = nontrivial || len(s.Patches) >= 3 || updK.Type != keys.P256
 				r, err := client.NewUpdateRequest(&client.UpdateRequestInfo{DidSuffix: suffixOf(c, code), Patches: toPatches(t, s.Patches), UpdateCommitment: s.NextUpdate, UpdateKey: updJ,
-					MultihashCode: uint(code), Signer: signerFor(updK, kid), RevealValue: s.Reveal, AnchorFrom: s.From, AnchorUntil: s.Until})
+					MultihashCode: uint(sc), Signer: signerFor(updK, kid), RevealValue: s.Reveal, AnchorFrom: s.From, AnchorUntil: s.Until})
 				if err != nil {
 					t.Fatalf("NewUpdateRequest rejected valid inputs: %v", err)
 				}
 				s.Request = r
-				updK, updJ = next, nj
+				updK, updJ, updCode = next, nj, sc
 			case "recover":
 				nu, nr := newKey(), newKey()
 				nuj, nrj := libJWK(t, nu, useNonce), libJWK(t, nr, useNonce)
 				s.KeyType, s.Alg, s.Crv = recK.Type.String(), recK.Type.Alg(), recK.Type.Crv()
 				s.SigningJWK = res.NormalizeAny(recJ).(map[string]interface{})
-				s.Reveal = asm.Reveal(withNonce(recK, useNonce), code)
-				s.NextUpdate, s.NextRecovery = commit(t, nuj, code), commit(t, nrj, code)
+				s.Reveal = asm.Reveal(withNonce(recK, useNonce), recCode)
+				s.NextUpdate, s.NextRecovery = commit(t, nuj, sc), commit(t, nrj, sc)
 				s.AnchorOrigin = rapid.SampledFrom([]interface{}{nil, "other-origin", []interface{}{"x"}}).Draw(t, "recoverOrigin")
 				ri := &client.RecoverRequestInfo{DidSuffix: suffixOf(c, code), RecoveryKey: recJ, RecoveryCommitment: s.NextRecovery, UpdateCommitment: s.NextUpdate, AnchorOrigin: s.AnchorOrigin,
-					AnchorFrom: s.From, AnchorUntil: s.Until, MultihashCode: uint(code), Signer: signerFor(recK, kid), RevealValue: s.Reveal}
+					AnchorFrom: s.From, AnchorUntil: s.Until, MultihashCode: uint(sc), Signer: signerFor(recK, kid), RevealValue: s.Reveal}
 				if rapid.IntRange(0, 2).Draw(t, "opaqueRecover") == 0 {
 					s.Opaque = opaqueDoc(t)
 					ri.OpaqueDocument = js(s.Opaque)
@@ -446,11 +475,12 @@ func TestRoundTrip(t *testing.T) {
 					t.Fatalf("NewRecoverRequest rejected valid inputs: %v", err)
 				}
 				s.Request = r
-				updK, updJ, recK, recJ = nu, nuj, nr, nrj
+				updK, updJ, recK, recJ, updCode, recCode = nu, nuj, nr, nrj, sc, sc
 			default:
 				s.KeyType, s.Alg, s.Crv = recK.Type.String(), recK.Type.Alg(), recK.Type.Crv()
 				s.SigningJWK = res.NormalizeAny(recJ).(map[string]interface{})
-				s.Reveal = asm.Reveal(withNonce(recK, useNonce), code)
+				s.Reveal = asm.Reveal(withNonce(recK, useNonce), recCode)
+				s.Code = 0
 				nontrivial = nontrivial || recK.Type != keys.P256
 				r, err := client.NewDeactivateRequest(&client.DeactivateRequestInfo{DidSuffix: suffixOf(c, code), RecoveryKey: recJ, Signer: signerFor(recK, kid), RevealValue: s.Reveal, AnchorFrom: s.From, AnchorUntil: s.Until})
 				if err != nil {
@@ -468,7 +498,7 @@ func TestRoundTrip(t *testing.T) {
 		for _, s := range c.Steps {
 			types = append(types, "op:"+s.Type, "sign:"+s.KeyType)
 		}
-		ev.Record(chk, nontrivial, ev.Hash(c), append(types, fmt.Sprintf("hash:%d", code), fmt.Sprintf("leading-zero-coordinate-key:%v", lzUsed))...)
+		ev.Record(chk, nontrivial, ev.Hash(c), append(types, fmt.Sprintf("hash:%d", code), fmt.Sprintf("migrates-hash-algorithm:%v", migrate), fmt.Sprintf("leading-zero-coordinate-key:%v", lzUsed))...)
 		ev.SampleFn(chk, func() interface{} {
 			var out []string
 			for _, s := range c.Steps {
